@@ -1,11 +1,17 @@
 import Driver.Proto
 import Model.BitSet
+import Model.BitSetChecked
+import Model.BitSetHeap
 import Lemmas.BitSet
 open Proto
 
-/-! Model driver of C08: two bit sets `A`, `B` per history.  Every mutating line is parsed to a `BS.Op` and executed
-    by `BS.applyOp` (the function the history theorems of Props/C08.lean are about); it prints the `Count` of the
-    receiver.  Queries print their result, `mem`/`obs`/`data` the observations described in go/cmd/c08/main.go. -/
+/-! Model driver of C08: two bit sets `A`, `B` per history, executed on the HEAP model (`Model/BitSetHeap.lean`): every
+    mutating line is parsed to a `BS.Op` and executed by `BS.applyOpH`; the slices that cross the API (arguments of
+    `Load`, results of `Data`) are heap arrays of the caller, which the driver scribbles on or keeps and re-checks exactly
+    as the Go harness does (`hand`, suffix ` ALIAS:<what>`).  All values printed are read from the heap through
+    `Heap.view`; `C08.heap_refines` / `C08.no_aliasing` relate this to the value model `BS.applyOp`, the one the set
+    theorems are about.  Every line is also executed with CHECKED word accesses (`Model/BitSetChecked.lean`); an access out
+    of range would print `panic` (`C08.all_accesses_in_bounds*`: it never does). -/
 
 def hexWord (w : BS.W) : String := natToHex w.toNat
 
@@ -53,32 +59,69 @@ def parseOp? : List String → Option BS.Op
   | ["loaddata", r, q] => do some (.loadData (← reg? r) (← reg? q))
   | _ => none
 
-def qry (s : BS.Pair) (r : String) (f : BS.T → String) : BS.Pair × String :=
+/-- the session: the heap, the counter of slices handed over, the slices being watched (address, pristine copy, what) -/
+structure DS where
+  h : BS.Heap := {}
+  n : Nat := 0
+  held : List (Nat × List BS.W × String) := []
+
+/-- what the Go harness does with a slice that crossed the API: scribble on it now, or keep it and watch it -/
+def DS.hand (s : DS) (what : String) (a : Nat) : DS :=
+  let n := s.n + 1
+  if n % 2 == 0 then { s with n := n, h := BS.scribbleH s.h a }
+  else { s with n := n, held := s.held ++ [(a, BS.arrAt s.h.mem a, what)] }
+
+/-- report (once) every watched slice whose content changed -/
+def DS.aliasCheck (s : DS) : DS × String :=
+  let bad := s.held.filter (fun x => BS.arrAt s.h.mem x.1 != x.2.1)
+  let keep := s.held.filter (fun x => BS.arrAt s.h.mem x.1 == x.2.1)
+  ({ s with held := keep }, String.join (bad.map (fun x => " ALIAS:" ++ x.2.2)))
+
+def optStr {α : Type} [ToString α] : Option α → String
+  | some v => toString v
+  | none => "panic"
+
+/-- `Data()` twice, as the harness does: the first result is printed and handed on, the second is scribbled on -/
+def DS.data (s : DS) (r : BS.Reg) : DS × String :=
+  let h1 := BS.applyOpH s.h (.data r)
+  let out := wordsStr (BS.arrAt h1.mem h1.lastExt)
+  let s := ({ s with h := h1 }).hand "Data-result" h1.lastExt
+  let h2 := BS.applyOpH s.h (.data r)
+  ({ s with h := BS.scribbleH h2 h2.lastExt }, out)
+
+def qry (s : DS) (r : String) (f : BS.T → String) : DS × String :=
   match reg? r with
-  | some r => (s, f (s.get r))
+  | some r => (s, f (s.h.view r))
   | none => (s, "bad-op")
 
-def qryAt (s : BS.Pair) (r i : String) (f : BS.T → Nat → String) : BS.Pair × String :=
+def qryAt (s : DS) (r i : String) (f : BS.T → Nat → String) : DS × String :=
   match reg? r, i.toNat? with
-  | some r, some i => (s, f (s.get r) i)
+  | some r, some i => (s, f (s.h.view r) i)
   | _, _ => (s, "bad-op")
 
-def step (s : BS.Pair) (line : String) : BS.Pair × String :=
-  let ws := words line
+def exec (s : DS) (ws : List String) : DS × String :=
   match parseOp? ws with
   | some op =>
-    let s' := BS.applyOp s op
     let r := match ws with
       | _ :: r :: _ => (reg? r).getD .A
       | _ => .A
-    -- a copy of a bit set onto itself prints the State scan as well (so that a loss of members shows on this line)
-    let selfCopy := match ws with
-      | ["copy", r, q] => r == q
-      | _ => false
-    (s', toString (BS.count (s'.get r)) ++ (if selfCopy then " " ++ memStr (s'.get r) else ""))
+    -- checked execution on the value the heap denotes: `none` = an index out of range
+    match BS.applyOpC s.h.denote op with
+    | none => (s, "panic")
+    | some _ =>
+      let h' := BS.applyOpH s.h op
+      let s' : DS := { s with h := h' }
+      let s' := match ws with
+        | ["load", _, _] => s'.hand "Load-argument" h'.lastExt
+        | ["loaddata", _, _] => s'.hand "Data-result-given-to-Load" h'.lastExt
+        | _ => s'
+      -- a copy of a bit set onto itself prints the State scan as well (so that a loss of members shows on this line)
+      let selfCopy := match ws with
+        | ["copy", r, q] => r == q
+        | _ => false
+      (s', toString (BS.count (h'.view r)) ++ (if selfCopy then " " ++ memStr (h'.view r) else ""))
   | none =>
     match ws with
-    | ["reset"] => ({}, "reset")
     | ["pc", w] =>
       -- area `popcnt`: the transcribed SWAR routine, cross-checked against its specification `BS.popcount`
       match hexToNat? w with
@@ -90,28 +133,37 @@ def step (s : BS.Pair) (line : String) : BS.Pair × String :=
       | none => (s, "bad-op")
     | ["data", r] =>
       match reg? r with
-      | some r => (BS.applyOp s (.data r), wordsStr (BS.data (s.get r)).2)
+      | some r => s.data r
       | none => (s, "bad-op")
-    | ["state", r, i] => qryAt s r i (fun b i => toString (BS.state b i))
+    | ["state", r, i] => qryAt s r i (fun b i => optStr (BS.stateC b i))
     | ["count", r] => qry s r (fun b => toString (BS.count b))
-    | ["first", r] => qry s r (fun b => toString (BS.firstSet b))
-    | ["last", r] => qry s r (fun b => toString (BS.lastSet b))
-    | ["next", r, i] => qryAt s r i (fun b i => toString (BS.nextSet b i))
-    | ["prev", r, i] => qryAt s r i (fun b i => toString (BS.previousSet b i))
-    | ["nextclr", r, i] => qryAt s r i (fun b i => toString (BS.nextClear b i))
-    | ["prevclr", r, i] => qryAt s r i (fun b i => toString (BS.previousClear b i))
-    | ["equal"] => (s, toString (BS.equal s.a s.b) ++ " " ++ toString (BS.equal s.b s.a))
+    | ["first", r] => qry s r (fun b => optStr (BS.firstSetC b))
+    | ["last", r] => qry s r (fun b => optStr (BS.lastSetC b))
+    | ["next", r, i] => qryAt s r i (fun b i => optStr (BS.nextSetC b i))
+    | ["prev", r, i] => qryAt s r i (fun b i => optStr (BS.previousSetC b i))
+    | ["nextclr", r, i] => qryAt s r i (fun b i => optStr (BS.nextClearC b i))
+    | ["prevclr", r, i] => qryAt s r i (fun b i => optStr (BS.previousClearC b i))
+    | ["equal"] => (s, optStr (BS.equalC (s.h.view .A) (s.h.view .B)) ++ " " ++ optStr (BS.equalC (s.h.view .B) (s.h.view .A)))
     | ["equalnil", r] => qry s r (fun _ => "false")
-    | ["equalself", r] => qry s r (fun b => toString (BS.equal b b))
+    | ["equalself", r] => qry s r (fun b => optStr (BS.equalC b b))
     | ["mem", r] => qry s r memStr
     | ["obs", r] =>
       match reg? r with
       | some r =>
-        let b := s.get r
-        let pre := "c=" ++ toString (BS.count b) ++ " m=" ++ memStr b ++ " f=" ++ toString (BS.firstSet b) ++
-          " l=" ++ toString (BS.lastSet b)
-        (BS.applyOp s (.data r), pre ++ " d=" ++ wordsStr (BS.data b).2)
+        let b := s.h.view r
+        let pre := "c=" ++ toString (BS.count b) ++ " m=" ++ memStr b ++ " f=" ++ optStr (BS.firstSetC b) ++
+          " l=" ++ optStr (BS.lastSetC b)
+        let x := s.data r
+        (x.1, pre ++ " d=" ++ x.2)
       | none => (s, "bad-op")
     | _ => (s, "bad-op")
 
-def main : IO Unit := Proto.run step ({} : BS.Pair)
+def step (s : DS) (line : String) : DS × String :=
+  match words line with
+  | ["reset"] => ({}, "reset")
+  | ws =>
+    let x := exec s ws
+    let y := x.1.aliasCheck
+    (y.1, x.2 ++ y.2)
+
+def main : IO Unit := Proto.run step ({} : DS)
